@@ -119,6 +119,28 @@ CLAIMED: dict[str, tuple[str, str, str, str, str]] = {
         "partial writes / EAGAIN / EINTR / selector results are decided against that specification event by event.",
         "Trusted: TLC; the scripted socket (a send of n>0 bytes accepts >=1 byte or raises EAGAIN/EINTR). TLS send loops are checked under C08.",
     ),
+    "C03": (
+        "model_checking",
+        "TLA+ spec RecvEndpoint (receive loop of the endpoint over an abstract contract-abiding transport; sticky EOF; time budget) model-checked "
+        "by TLC over streams x close positions x call histories x timeouts {None,0,>0}; every transport call and recv_packet outcome of the real "
+        "StreamEndpoint (scripted transport + fake clock) and AsyncStreamEndpoint (in-memory transport), both receivers, validated by TLC against "
+        "RecvEndpointTrace",
+        "DESIGN.md section 4 (C03)",
+        "TLC proves on the model: packets once and in order, never ahead of the bytes, EOF only after every complete frame was delivered, EOF "
+        "sticky without touching the transport again; thousands of seeded executions of the real endpoints are decided event by event against it.",
+        "Trusted: TLC; the scripted transport honours the transport contract. TCP clients over loopback are covered indirectly (C10/C11/C12 drive "
+        "them); their errno conversion is not part of this check.",
+    ),
+    "C11": (
+        "model_checking",
+        "TLA+ specs RecvEndpoint (timeout argument of every transport call = remaining budget), SendAll (_retry waits min(remaining, retry_interval), "
+        "recompute) and Budget (whole client call incl. lock wait and iterators) model-checked by TLC; executions of the real endpoint / transports / "
+        "TCPNetworkClient / AsyncTCPNetworkClient iterator on scripted socket+selector+lock with an integer fake clock validated by TLC",
+        "DESIGN.md section 4 (C11)",
+        "Elapsed fake time is compared exactly: the sum of all waits of a call never exceeds T, T=0 never waits, TimeoutError only when the "
+        "budget is used up and nothing complete is available; every wait and every timeout argument is logged and must match the model.",
+        "Trusted: TLC; processing time is zero on the fake clock. Blocking TLS transport timeouts are exercised under C08/C09.",
+    ),
 }
 
 NOT_YET = "check not built yet in this revision of /verif (planned: see DESIGN.md section 0); not claimed until its check exists"
